@@ -1404,11 +1404,17 @@ def apply_contract(ex: Exec, st: State, f: FuncRef, node, c: Contract, args, kwa
     env2 = dict(env)
     env2["result"] = result
     view = c.ensures if c.call_ensures is None else [(f"call{i}", e) for i, e in enumerate(c.call_ensures)]
+    pc_before = list(st.pc)
     for name, e in view:
         st.assume(eval_spec(ex, st, e, env2, what=f"{c.key}.{name}"))
     st.old = saved_old
     if ex.feasible(st.pc):
         yield st, result
+    elif not any(str(e).strip() == "False" for _, e in view) and ex.feasible(pc_before):
+        # the callee's post-condition contradicts what the caller knows: the rest of the caller would be verified
+        # vacuously.  A contract that states it never returns says so with the clause "False".
+        raise Unsupported(f"the post-condition of {c.key} is inconsistent with the caller's state at this call "
+                          f"(vacuous continuation in {caller})")
 
 
 def _havoc_target(ex, st, env, m):
